@@ -395,6 +395,7 @@ class Interp:
         if head_assume:
             head_assume()
         c.assume(inv(c, fr, entry))
+        self.e.site_check(c, f"head of loop {ordn} of {fr.qual} (invariant assumed on havocked state)")
         for f in spec.get("facts", lambda c, fr: [])(c, fr):
             c.assume(f)
         head = c.snapshot()
